@@ -18,16 +18,16 @@ import (
 // Driver applies Ops to a real storage.Storage and reads back its observable state. It owns the
 // translation between the model's canonical ids and the implementation's opaque ids.
 type Driver struct {
-	S      storage.Storage
-	vids   map[string]string // canonical -> raw  (per bucket/key: "b/k@v3")
-	rvids  map[string]string // raw -> canonical
-	nextV  int
-	uids   map[int]string // upload ordinal -> raw
-	ruids  map[string]int
-	nextU  int
-	Ctx    context.Context
-	// BeforeRead, if set, is called before each chunk read of an uploaded body (fault/sched hooks).
-	WrapBody func(io.Reader) io.Reader
+	S     storage.Storage
+	vids  map[string]string // canonical -> raw  (per bucket/key: "b/k@v3")
+	rvids map[string]string // raw -> canonical
+	nextV int
+	uids  map[int]string // upload ordinal -> raw
+	ruids map[string]int
+	nextU int
+	Ctx   context.Context
+	// WrapBody, if set, wraps every uploaded body (fault/sched hooks); n is the body length.
+	WrapBody func(r io.Reader, n int) io.Reader
 }
 
 func NewDriver(s storage.Storage) *Driver {
@@ -211,7 +211,7 @@ func metaFrom(o Op) *storage.ObjectMetadata {
 func (d *Driver) body(sym string) io.Reader {
 	var r io.Reader = bytes.NewReader(BodyBytes(sym))
 	if d.WrapBody != nil {
-		r = d.WrapBody(r)
+		r = d.WrapBody(r, len(BodyBytes(sym)))
 	}
 	return r
 }
@@ -389,6 +389,12 @@ func (d *Driver) Apply(o Op, m *Model) Res {
 			if o.Has("ifm") {
 				opts.IfMatchETag = sp(m.ResolveETag(o.B, o.K, o.Get("ifm")))
 			}
+		}
+		if o.Has("manifest") {
+			if opts == nil {
+				opts = &storage.CompleteMultipartUploadOptions{}
+			}
+			opts.Parts = d.manifest(o, m)
 		}
 		r, err := s.CompleteMultipartUpload(ctx, bn, key, d.rawUID(o.U), nil, opts)
 		if err != nil {
@@ -690,4 +696,38 @@ func (d *Driver) RawVersionID(c string) string {
 		return *r
 	}
 	return ""
+}
+
+// manifest builds the client-declared part list of a CompleteMultipartUpload from the model's
+// view of the upload: "ok" declares every part correctly, "badetag" falsifies the last ETag,
+// "badorder" declares the parts in descending order, "missing" omits the last part.
+func (d *Driver) manifest(o Op, m *Model) []storage.CompleteMultipartUploadPart {
+	u := m.Uploads[o.U]
+	if u == nil {
+		return []storage.CompleteMultipartUploadPart{{PartNumber: 1, ETag: "\"00000000000000000000000000000000\""}}
+	}
+	nums := make([]int, 0, len(u.Parts))
+	for n := range u.Parts {
+		nums = append(nums, n)
+	}
+	sort.Ints(nums)
+	var parts []storage.CompleteMultipartUploadPart
+	for _, n := range nums {
+		parts = append(parts, storage.CompleteMultipartUploadPart{PartNumber: int32(n), ETag: "\"" + md5hex(u.Parts[n]) + "\""})
+	}
+	switch o.Get("manifest") {
+	case "badetag":
+		if len(parts) > 0 {
+			parts[len(parts)-1].ETag = "\"ffffffffffffffffffffffffffffffff\""
+		}
+	case "badorder":
+		for i, j := 0, len(parts)-1; i < j; i, j = i+1, j-1 {
+			parts[i], parts[j] = parts[j], parts[i]
+		}
+	case "missing":
+		if len(parts) > 0 {
+			parts = parts[:len(parts)-1]
+		}
+	}
+	return parts
 }
